@@ -61,6 +61,88 @@ def assigned_in(b, comp, place_origin):
     return False
 
 
+def cursor_wraps(b, comp, var):
+    """The cursor is reset / reduced inside the loop (wrap-around probing): assigned the constant 0, the result of a
+    remainder, or the result of `next_pos`.  Otherwise it only moves forward and any loop-invariant bound ends the loop."""
+    root, fields = var
+    for i in comp:
+        blk = b.blocks[i]
+        for st in blk["s"]:
+            if "l" not in st:
+                continue
+            lf = [e for e in st["l"][1:] if e != "*"]
+            direct = st["l"][0] == root and lf == fields
+            through_ref = "*" in st["l"][1:] and st["l"][0] != root and cfg.origin(b, [st["l"][0]])[0] == root and \
+                cfg.origin(b, [st["l"][0]])[1] + lf == fields
+            if not (direct or through_ref):
+                continue
+            r = st["r"]
+            if r["k"] == "use":
+                c = cfg.op_const(r["o"])
+                if c is not None and c.get("v") == 0:
+                    return True
+                pl = cfg.op_place(r["o"])
+                if pl:
+                    for d in [x for x in cfg.defs(b).get(pl[0], []) if x[1] in comp]:
+                        if d[0] == "assign" and d[2]["k"] == "use" and cfg.op_const(d[2]["o"]) and cfg.op_const(d[2]["o"]).get("v") == 0:
+                            return True
+                        if d[0] == "assign" and d[2]["k"] == "bin" and d[2]["op"] == "Rem":
+                            return True
+                        if d[0] == "call" and (cfg.callee(d[2]) or "").endswith("::next_pos"):
+                            return True
+            if r["k"] == "bin" and r["op"] == "Rem":
+                return True
+        t = blk["term"]
+        if t["k"] == "call" and not fields and t["d"] == [root] and (cfg.callee(t) or "").endswith("::next_pos"):
+            return True
+    return False
+
+
+def sentinel_is_cursor_start(fa, b, comp, var, inv):
+    """The invariant side `inv` (origin) of a wrap-around test equals the value the cursor `var` (origin) had when the loop
+    was entered: a snapshot `let start = pos`, the same initialiser, or - for fields of an iterator struct - every
+    constructor of the struct initialises both fields from the same value."""
+    # fields of self: check the constructors
+    if var[0] == inv[0] and 0 < var[0] <= b.d["argc"] and var[1] and inv[1]:
+        fv, fi = var[1][-1][1:], inv[1][-1][1:]
+        ty = b.local_ty(var[0]).replace("&mut ", "").replace("&", "").split("<")[0].strip()
+        found = 0
+        for cb in fa.bodies.values():
+            if cb.crate != b.crate:
+                continue
+            for bi, st in cfg.assigns(cb):
+                r = st["r"]
+                if r["k"] == "agg" and r.get("what") == "adt" and (r.get("adt") or "").split("<")[0] == ty and \
+                        fv in r.get("fields", []) and fi in r.get("fields", []):
+                    found += 1
+                    ov = cfg.op_origin(cb, r["ops"][r["fields"].index(fv)])
+                    oi = cfg.op_origin(cb, r["ops"][r["fields"].index(fi)])
+                    if ov is None or ov != oi:
+                        return False
+        return found > 0
+    if inv[1] or var[1]:
+        return False
+    s_loc, c_loc = inv[0], var[0]
+    outside = lambda l: [d for d in cfg.defs(b).get(l, []) if d[0] != "partial" and d[1] not in comp]
+    sd = outside(s_loc)
+    cd = outside(c_loc)
+    if len(sd) != 1:
+        return False
+
+    def src(d):
+        if d[0] == "assign" and d[2]["k"] in ("use", "cast") and cfg.op_place(d[2]["o"]):
+            pl = cfg.op_place(d[2]["o"])
+            return pl[0] if len(pl) == 1 else None
+        return None
+    if src(sd[0]) == c_loc:
+        return True                      # let start = pos;
+    if len(cd) == 1 and src(cd[0]) == s_loc:
+        return True                      # let mut pos = start;
+    if len(cd) == 1 and src(sd[0]) is not None and src(sd[0]) == src(cd[0]):
+        return True                      # both copies of one value
+    return False
+
+
 def classify(b, comp, fa):
     """Return (kind, detail) for loop `comp` of body b."""
     exits = [(u, v) for u in sorted(comp) for v in cfg.succs(b, u) if v not in comp]
@@ -136,6 +218,14 @@ def classify(b, comp, fa):
                     break
             if cyc:
                 return None, ("the sentinel test at %s can be bypassed: some cycle of the loop does not pass it" % b.loc(u))
+            # a wrap-around sentinel must be a position the cursor actually visits: the value the cursor started from
+            # (`let start = pos;`, or the `start` field set together with `pos`).  Bounds (capacity()/len(), constants)
+            # are for monotone cursors and need no such link.
+            inv = [(k, o) for k, o in sides if k == "invariant"]
+            if inv and inv[0][1] is not None and cursor_wraps(b, comp, var) and \
+                    not sentinel_is_cursor_start(fa, b, comp, var, inv[0][1]):
+                return None, ("the loop-invariant value compared with the cursor at %s is not the cursor's starting position "
+                              "(e.g. the unreduced hash instead of `hash %% capacity`): the cursor may never reach it" % b.loc(u))
             return "W1", "exit on `%s %s <loop-invariant>` at %s, tested on every iteration" % (
                 (b.local_name(var[0]) or "_%d" % var[0]) + "".join(var[1]), cmp_stmt["op"], b.loc(u))
     return None, "exits: %s" % ", ".join(b.loc(u) for u, v in exits[:6])
